@@ -262,3 +262,37 @@ fn run_idioms(seed: u64, n: u64) {
 #[test] fn c01_storage_idiom_sequences_d() { run_idioms(104, 60 * scale()); }
 #[test] fn c01_storage_idiom_sequences_e() { run_idioms(105, 60 * scale()); }
 #[test] fn c01_storage_idiom_sequences_f() { run_idioms(106, 60 * scale()); }
+
+/// long repetitive programs up to the 24 KiB contract limit: value trees and wrappers must not nest without bound
+#[test]
+fn c01_long_repetitive_programs_terminate() {
+    use std::io::Write;
+    std::panic::set_hook(Box::new(|_| {}));
+    // (name, prologue, repeated block, epilogue)
+    let fams: Vec<(&str, Vec<u8>, Vec<u8>, Vec<u8>)> = vec![
+        ("copy a loaded word back and forth between two slots", vec![0x60, 0x01, 0x60, 0x00], vec![0x80, 0x54, 0x82, 0x55, 0x81, 0x54, 0x81, 0x55], vec![0x00]),
+        ("store the loaded word of the same slot again", vec![0x60, 0x00], vec![0x80, 0x54, 0x81, 0x55], vec![0x00]),
+        ("mload / mstore ping-pong between two offsets", vec![0x60, 0x20, 0x60, 0x00], vec![0x80, 0x51, 0x82, 0x52, 0x81, 0x51, 0x81, 0x52], vec![0x00]),
+        ("hash the previous hash", vec![0x36, 0x5f, 0x52], vec![0x60, 0x20, 0x5f, 0x20, 0x5f, 0x52], vec![0x5f, 0x51, 0x5f, 0x55, 0x00]),
+        ("nested mapping of the previous slot", vec![0x5f], vec![0x5f, 0x52, 0x33, 0x60, 0x20, 0x52, 0x60, 0x40, 0x5f, 0x20], vec![0x60, 0x01, 0x90, 0x55, 0x00]),
+        ("dup-add growth", vec![0x36], vec![0x80, 0x01], vec![0x5f, 0x55, 0x00]),
+    ];
+    let mut cases = 0;
+    for (name, pro, block, epi) in fams {
+        for reps in [50usize, 800, (24000 - pro.len() - epi.len()) / block.len()] {
+            let mut code = pro.clone();
+            for _ in 0..reps { code.extend(&block); }
+            code.extend(&epi);
+            println!("RUNNING c01_long {name} x{reps} ({} bytes): prologue {pro:02x?} block {block:02x?} epilogue {epi:02x?}", code.len());
+            std::io::stdout().flush().ok();
+            // the analysis runs on a thread with the default 8 MiB of a main thread, like a caller would
+            let c2 = code.clone();
+            let h = std::thread::Builder::new().stack_size(8 << 20).spawn(move || matches!(analyze(&c2, true), Out::Panic)).unwrap();
+            if let Ok(true) = h.join() {
+                witness("C01", "analyze.panic.long_programs", format!("{name} x{reps}: prologue {pro:02x?} block {block:02x?} epilogue {epi:02x?}"), "PANIC".into(), "layout or error".into());
+            }
+            cases += 1;
+        }
+    }
+    println!("CASES c01_long {cases}");
+}
